@@ -151,7 +151,7 @@ partial def streamDead (bs : Bytes) : Option Nat :=
     match r with
     | [] => none
     | b :: _ =>
-      match Spec.Pos.scanValue (r.length + 2) r p with
+      match Spec.Pos.scanValue (2 * r.length + 4) r p with
       | .eof => none
       | .dead d none => some d
       | .dead d (some i) => if i.hexEnd == 0 then some d else none
